@@ -269,6 +269,9 @@ func (d *driver) edit(lost, lostPod bool) {
 		} else {
 			p := d.randPolicy(name)
 			p.Ns = cur.Ns
+			if f, ok := flipBlocks(*cur); ok && d.rng.Intn(2) == 0 {
+				p = f // the new version allows a network the old one excepted (or the other way round): same set, other flags
+			}
 			c.Policies[p.Name+"_"+p.Ns] = p
 			d.api.Load(*c)
 			if handled {
@@ -326,6 +329,52 @@ func (d *driver) edit(lost, lostPod bool) {
 		d.api.Load(*c)
 		d.emit(M{"ev": "RelabelNamespace", "obj": n, "handled": false})
 	}
+}
+
+// flipBlocks derives a version of the policy in which the first ipBlock peer with exceptions allows one of its exceptions
+// instead, or the first plain ipBlock peer of a sub-network becomes an exception of its parent network.
+func flipBlocks(p env.Policy) (env.Policy, bool) {
+	parent := map[string]string{"B1e": "B1", "B2e": "B2", "B2h": "B2"}
+	flip := func(rules []env.PRule) ([]env.PRule, bool) {
+		out := append([]env.PRule{}, rules...)
+		for i, r := range out {
+			for j, peer := range r.Peers {
+				if peer.Block == "" {
+					continue
+				}
+				np := peer
+				if len(peer.Except) > 0 {
+					np.Block, np.Except = peer.Except[0], []string{}
+				} else if par, ok := parent[peer.Block]; ok {
+					np.Block, np.Except = par, []string{peer.Block}
+				} else {
+					continue
+				}
+				nr := r
+				nr.Peers = append([]env.Peer{}, r.Peers...)
+				nr.Peers[j] = np
+				// keep the generator's exclusion: no network both allowed and excepted within one rule
+				for k, o := range nr.Peers {
+					if k != j && o.Block != "" {
+						return rules, false
+					}
+				}
+				out[i] = nr
+				return out, true
+			}
+		}
+		return rules, false
+	}
+	q := p
+	if in, ok := flip(p.Ingress); ok {
+		q.Ingress = in
+		return q, true
+	}
+	if eg, ok := flip(p.Egress); ok {
+		q.Egress = eg
+		return q, true
+	}
+	return p, false
 }
 
 func (d *driver) fullSync(tag string) {
